@@ -189,6 +189,10 @@ type c19Step struct {
 	// put_service: 1 = this name registers SP 0/1 with other metadata under the same entity ID: its only endpoint is .../saml/acs-b
 	// (a request naming .../saml/acs is then not for a registered endpoint). With both variants stored under different names, which one
 	// is served is the server's choice - but the same choice after a restart.
+	// 2 = the document uploaded under this name describes the same entity ID WITHOUT a service-provider role (say, the metadata of
+	// the entity's identity-provider side): the server may refuse it; if it stores it, no assertion can go to the entity on account
+	// of this document, and with another name carrying the entity's SP metadata the choice is again the server's - and again the same
+	// after a restart.
 	Variant int `json:"metadata_variant,omitempty"`
 	// Also > 0: the uploaded document is an EntitiesDescriptor (a federation aggregate): an entity without a service-provider
 	// role, then SP, then provider (SP+Also) mod n. One service holds one provider: the first one with the role (what
@@ -212,6 +216,24 @@ func c19Password(user string, ver int, kind string) string {
 var c19Users = []string{"u0", "u1", "u2"}
 var c19Svcs = []string{"s0", "s1", "s2"}
 var c19Scs = []string{"h0", "h1"}
+
+// c19OddSvcs: service names (standing in for s0, s1, s2) whose order depends on who sorts them: bytes, numbers by value or by
+// length, case-blind, leading zeros dropped, punctuation ignored.
+var c19OddSvcs = [][3]string{
+	{"s10", "s5", "s9"}, {"s9", "s5", "s10"}, {"s100", "s20", "s3"}, {"s2b", "s11a", "s1c"},
+	{"Sb", "sa", "sc"}, {"sa", "Sc", "sB"},
+	{"s01", "s001", "s1"},
+	{"s_a", "s.b", "sAc"}, {"s-2", "s1", "s.0"},
+}
+
+func c19PlainSvc(name string) bool {
+	for _, p := range c19Svcs {
+		if p == name {
+			return true
+		}
+	}
+	return false
+}
 
 const c19NSP = 3
 
@@ -241,7 +263,9 @@ func genC19(g *Rng, tier string) *Plan {
 	}
 	n := 4 + g.Intn(9)
 	ver := 1
-	apiPw := g.Bool(0.15) // histories that hash passwords through the API (bcrypt cost 10) are the minority: they are 50x slower
+	var tailAt []int                 // where each targeted tail drawn below starts
+	twoNamesTail, alone := -1, false // which of them is the two-names tail; the history consists of one scenario alone
+	apiPw := g.Bool(0.15)            // histories that hash passwords through the API (bcrypt cost 10) are the minority: they are 50x slower
 	for i := 0; i < n; i++ {
 		var st c19Step
 		switch g.PickW(10, 4, 10, 5, 5, 3, 12, 16, 8, 4, 8, 6, 1) {
@@ -312,6 +336,7 @@ func genC19(g *Rng, tier string) *Plan {
 		}
 	}
 	if g.Bool(0.25) {
+		tailAt = append(tailAt, len(steps))
 		// targeted: a user record replaced by a PUT that leaves attributes out, then a login and an assertion
 		u := Pick(g, c19Users...)
 		ver += 2
@@ -321,6 +346,8 @@ func genC19(g *Rng, tier string) *Plan {
 			c19Step{Op: "sso", SP: 0, Cookie: "slot", Slot: -1, Bind: Pick(g, "redirect", "post")})
 	}
 	if g.Bool(0.15) {
+		tailAt = append(tailAt, len(steps))
+		twoNamesTail = len(tailAt) - 1
 		// targeted: two names register one entity ID with different metadata, in either order; then the provider asks for a login
 		u := Pick(g, c19Users...)
 		ver++
@@ -337,6 +364,7 @@ func genC19(g *Rng, tier string) *Plan {
 			c19Step{Op: "sso", SP: 1, Cookie: "slot", Slot: -1, Bind: "redirect"})
 	}
 	if g.Bool(0.15) {
+		tailAt = append(tailAt, len(steps))
 		// targeted: a service name moves to an entity ID that a later-named service carries already; the entity ID it had is gone
 		u := Pick(g, c19Users...)
 		ver++
@@ -353,6 +381,7 @@ func genC19(g *Rng, tier string) *Plan {
 			c19Step{Op: "sso", SP: b, Cookie: "slot", Slot: -1, Bind: Pick(g, "redirect", "post")})
 	}
 	if g.Bool(0.15) {
+		tailAt = append(tailAt, len(steps))
 		// targeted: a provider with two endpoints is used IdP-initiated and then by a request that names no endpoint; every later
 		// restart must continue with the same choice of endpoint
 		u := Pick(g, c19Users...)
@@ -365,6 +394,7 @@ func genC19(g *Rng, tier string) *Plan {
 			c19Step{Op: "sso", SP: 2, Cookie: "slot", Slot: -1, Bind: "redirect"})
 	}
 	if g.Bool(0.15) {
+		tailAt = append(tailAt, len(steps))
 		// targeted: a PUT for one user whose body names another, then logins with either user's password
 		a, b := "u"+fmt.Sprint(g.Intn(3)), "u"+fmt.Sprint(g.Intn(3))
 		if a != b {
@@ -375,6 +405,7 @@ func genC19(g *Rng, tier string) *Plan {
 		}
 	}
 	if g.Bool(0.15) {
+		tailAt = append(tailAt, len(steps))
 		// targeted: somebody planted a cookie in the victim's browser before the victim logged in
 		u := Pick(g, c19Users...)
 		ver++
@@ -384,6 +415,7 @@ func genC19(g *Rng, tier string) *Plan {
 			c19Step{Op: "sso", SP: 0, Cookie: "forged", Bind: Pick(g, "redirect", "post")})
 	}
 	if g.Bool(0.3) {
+		tailAt = append(tailAt, len(steps))
 		// targeted: a fresh login, the clock moved to a chosen position around that session's expiry, then its cookie is used
 		u := Pick(g, c19Users...)
 		ver++
@@ -394,6 +426,7 @@ func genC19(g *Rng, tier string) *Plan {
 	}
 	// (the scenarios below were added later and draw after everything above, so that the plans of earlier versions keep their prefix)
 	if g.Bool(0.3) {
+		tailAt = append(tailAt, len(steps))
 		// targeted: a session that is in use at a drawn distance before its expiry (a second to nearly its whole life), and whose
 		// cookie comes back at a drawn distance after that expiry: the term of a session is the one it got at the login
 		u := Pick(g, c19Users...)
@@ -414,6 +447,7 @@ func genC19(g *Rng, tier string) *Plan {
 		steps = append(steps, c19Step{Op: "advance", Ms: -6, Slot: -1, Lead: -Pick(g, int64(1), 500, 1000, 60_000, 600_000, 1_800_000, 3_000_000)}, use())
 	}
 	if g.Bool(0.25) {
+		tailAt = append(tailAt, len(steps))
 		// targeted: the credentials a live session was opened with are replaced (through the API, by the operator, or by a PUT that
 		// keeps the hash) or the user is removed; then the session's cookie is used, the user logs in again, and a cookie is used again.
 		// The session is the stored snapshot of the login: it lives until it expires or is deleted - before and after any restart.
@@ -442,9 +476,80 @@ func genC19(g *Rng, tier string) *Plan {
 		if change.Op == "put_user" && change.Pw != "" {
 			// the API hashes at full cost, and every fork that starts before this step pays for it again (and once more for every later
 			// login against that hash): such a history consists of the scenario alone, and nobody logs in afterwards
-			steps = scenario
+			steps, alone = scenario, true
 		} else {
 			steps = append(append(steps, scenario...), c19Step{Op: "login", User: u, Pw: Pick(g, "right", "right", "wrong")}, use())
+		}
+	}
+	// (drawn last, and changing no history's length) the alphabet of service names and the kind of the "other" document:
+	// in a share of the histories the three service names are replaced, everywhere, by names that common orderings rank differently
+	// (byte order / numbers by value / case-blind / leading zeros / punctuation), and a put_service of the other metadata variant
+	// uploads, in a share of the cases, a document that gives the entity no service-provider role at all. Whatever a server makes
+	// of two names with one entity ID, a server re-created over the same store must make the same of them.
+	if g.Bool(0.3) && !alone {
+		// targeted, INSTEAD of one of the tails above (the two-names tail if it was drawn, else a drawn one): one entity ID under two
+		// names - names on which orderings disagree, more often than not - with two different documents, one of which may give
+		// the entity no service-provider role; the provider asks for a login; one of the names may be written again
+		cut := twoNamesTail
+		if cut < 0 {
+			var nonEmpty []int
+			for i, at := range tailAt {
+				end := len(steps)
+				if i+1 < len(tailAt) {
+					end = tailAt[i+1]
+				}
+				if end > at {
+					nonEmpty = append(nonEmpty, i)
+				}
+			}
+			if len(nonEmpty) > 0 {
+				cut = nonEmpty[g.Intn(len(nonEmpty))]
+			}
+		}
+		if cut >= 0 {
+			end := len(steps)
+			if cut+1 < len(tailAt) {
+				end = tailAt[cut+1]
+			}
+			steps = append(append([]c19Step(nil), steps[:tailAt[cut]]...), steps[end:]...)
+		}
+		u := Pick(g, c19Users...)
+		ver++
+		names := [3]string{"s0", "s1", "s2"}
+		if g.Bool(0.6) {
+			names = Pick(g, c19OddSvcs...)
+		}
+		i, j := g.Intn(3), 1+g.Intn(2)
+		first, second := names[i], names[(i+j)%3]
+		sp := g.Intn(2)
+		docs := [2]int{0, Pick(g, 1, 2, 2)}
+		if g.Bool(0.5) {
+			docs[0], docs[1] = docs[1], docs[0]
+		}
+		steps = append(steps, c19Step{Op: "seed_user", User: u, Pw: "set", Ver: ver},
+			c19Step{Op: "put_service", Svc: first, SP: sp, Variant: docs[0]}, c19Step{Op: "put_service", Svc: second, SP: sp, Variant: docs[1]},
+			c19Step{Op: "login", User: u, Pw: "right"},
+			c19Step{Op: "sso", SP: sp, Cookie: "slot", Slot: -1, Bind: Pick(g, "redirect", "post")})
+		if g.Bool(0.4) {
+			k := g.Intn(2)
+			steps = append(steps, c19Step{Op: "put_service", Svc: [2]string{first, second}[k], SP: sp, Variant: docs[k]},
+				c19Step{Op: "sso", SP: sp, Cookie: "slot", Slot: -1, Bind: "redirect"})
+		}
+	}
+	if g.Bool(0.4) {
+		names := Pick(g, c19OddSvcs...)
+		for i := range steps {
+			for k, plain := range c19Svcs {
+				if steps[i].Svc == plain {
+					steps[i].Svc = names[k]
+					break
+				}
+			}
+		}
+	}
+	for i := range steps {
+		if steps[i].Op == "put_service" && !steps[i].Bad && steps[i].Variant == 1 && g.Bool(0.4) {
+			steps[i].Variant, steps[i].Also = 2, 0
 		}
 	}
 	for _, s := range steps {
@@ -537,9 +642,21 @@ func (w *c19World) fork() *c19World {
 
 func c19SPBase(i int) string { return fmt.Sprintf("https://sp%d.example.com", i) }
 
+// registered: some stored service describes SP sp as a service provider (a stored document that gives the entity no
+// service-provider role registers no service provider).
 func (w *c19World) registered(sp int) bool {
 	for _, v := range w.services {
-		if v%10 == sp {
+		if v%10 == sp && v/10 != 2 {
+			return true
+		}
+	}
+	return false
+}
+
+// roleless: some stored service carries the entity ID of SP sp in a document without a service-provider role.
+func (w *c19World) roleless(sp int) bool {
+	for _, v := range w.services {
+		if v%10 == sp && v/10 == 2 {
 			return true
 		}
 	}
@@ -550,9 +667,10 @@ func (w *c19World) registered(sp int) bool {
 func (w *c19World) variants(sp int) (std, other bool) {
 	for _, v := range w.services {
 		if v%10 == sp {
-			if v/10 == 0 {
+			switch v / 10 {
+			case 0:
 				std = true
-			} else {
+			case 1:
 				other = true
 			}
 		}
@@ -854,8 +972,16 @@ func (w *c19World) step(st c19Step, res *Result) (expected, observed c19Outcome,
 					{Binding: saml.HTTPPostBinding, Location: c19SPBase(2) + "/saml/acs-zero", Index: 0},
 				}
 			}
+			if st.Variant == 2 {
+				// the same entity, described in another role only
+				md.SPSSODescriptors = nil
+				md.IDPSSODescriptors = []saml.IDPSSODescriptor{{SingleSignOnServices: []saml.Endpoint{{Binding: saml.HTTPRedirectBinding, Location: c19SPBase(st.SP) + "/sso"}}}}
+				if res != nil {
+					res.probe("c19-service-document-without-sp-role")
+				}
+			}
 			var doc any = md
-			if st.Also > 0 {
+			if st.Also > 0 && st.Variant != 2 {
 				if res != nil {
 					res.probe("c19-aggregate-document")
 				}
@@ -873,9 +999,16 @@ func (w *c19World) step(st c19Step, res *Result) (expected, observed c19Outcome,
 		}
 		oldSP, hadOld := w.services[st.Svc]
 		rep = deliver(w.srv, "PUT", base+key, body, "", nil)
-		if !st.Bad && w.applied(key, prev, before) {
+		if !st.Bad && st.Variant == 2 && rep.Panic == nil && rep.Code >= 400 && w.store.fired == before && w.store.data[key] == prev {
+			// a document that describes no service provider may be refused; then nothing changed
+			expected = c19Outcome{Class: "ERROR"}
+			res.dontcare("service-document-without-sp-role-refused")
+		} else if !st.Bad && w.applied(key, prev, before) {
 			w.services[st.Svc] = st.SP
-			if st.Variant == 1 && st.SP != 2 {
+			switch {
+			case st.Variant == 2:
+				w.services[st.Svc] = st.SP + 20
+			case st.Variant == 1 && st.SP != 2:
 				w.services[st.Svc] = st.SP + 10
 			}
 		}
@@ -981,6 +1114,7 @@ func (w *c19World) step(st c19Step, res *Result) (expected, observed c19Outcome,
 		} else {
 			rep = deliver(w.srv, "GET", u.String(), "", "", cookies)
 		}
+		w.noteNames(st.SP, res)
 		w.lastAlt = c19Outcome{}
 		if !w.registered(st.SP) && w.maybeReg[st.SP] {
 			// what the reply may also be if the interrupted service change is read the other way
@@ -1019,6 +1153,16 @@ func (w *c19World) step(st c19Step, res *Result) (expected, observed c19Outcome,
 				expected.Alt = "ERROR" // both variants stored, or a change of this provider's services was interrupted: either reading
 			}
 		}
+		if w.roleless(st.SP) && w.registered(st.SP) {
+			// one name describes the entity as a service provider, another does not: served is one of them, the server's choice;
+			// a request of an entity served without that role is refused before anybody is asked to log in
+			if expected.Class != "ERROR" {
+				expected.Alt = "ERROR"
+			}
+			if res != nil {
+				res.probe("c19-request-of-an-entity-stored-with-and-without-sp-role")
+			}
+		}
 	case "shortcut":
 		var cookies []*http.Cookie
 		sess, cv := w.liveSession(st)
@@ -1042,6 +1186,9 @@ func (w *c19World) step(st c19Step, res *Result) (expected, observed c19Outcome,
 				}
 			}
 		}
+		if ok {
+			w.noteNames(sc.SP, res)
+		}
 		w.lastAlt = c19Outcome{}
 		if ok && w.sessState(sess) != 2 && !w.registered(sc.SP) && w.maybeReg[sc.SP] {
 			w.lastAlt = c19Outcome{Class: "ASSERTION", Detail: c19AssertionDetailAt(sess.Snap, sc.SP, relay, w.idpInitACS(sc.SP))}
@@ -1056,6 +1203,12 @@ func (w *c19World) step(st c19Step, res *Result) (expected, observed c19Outcome,
 		default:
 			dc = w.sessState(sess) == 1
 			expected = c19Outcome{Class: "ASSERTION", Detail: c19AssertionDetailAt(sess.Snap, sc.SP, relay, w.idpInitACS(sc.SP))}
+			if w.roleless(sc.SP) {
+				expected.Alt = "ERROR" // another name describes the entity without the role: which document is served is the server's choice
+				if res != nil {
+					res.probe("c19-request-of-an-entity-stored-with-and-without-sp-role")
+				}
+			}
 		}
 	case "list_users", "list_sessions", "list_services", "list_shortcuts":
 		kind := strings.TrimPrefix(st.Op, "list_")
@@ -1183,6 +1336,24 @@ func (w *c19World) noteCookieUse(st c19Step, observed c19Outcome, res *Result) {
 				res.probe("c19-expired-cookie-of-a-session-last-used-within-10min-of-its-expiry")
 			}
 		}
+	}
+}
+
+// noteNames counts, for the evidence, the requests of an entity that is stored under several names with different documents, at
+// least one of the names being outside the plain alphabet (the expectations never read this).
+func (w *c19World) noteNames(sp int, res *Result) {
+	if res == nil {
+		return
+	}
+	docs, odd := map[int]bool{}, false
+	for name, v := range w.services {
+		if v%10 == sp {
+			docs[v/10] = true
+			odd = odd || !c19PlainSvc(name)
+		}
+	}
+	if len(docs) > 1 && odd {
+		res.probe("c19-request-of-an-entity-stored-with-different-documents-under-names-that-orderings-rank-differently")
 	}
 }
 
@@ -1787,7 +1958,7 @@ func simplifyC19(p *Plan) []*Plan {
 func init() {
 	register(&Profile{
 		ID: "C19", Name: "idpserver", Level: "fault_enumeration",
-		Rule: "histories of 6-17 operations over {put/delete user (with/without/empty password), put/delete service (3 SP identities, 3 names, invalid body), put/delete shortcut, login (right/wrong/empty/other user's password), SSO (redirect/post, cookie of slot k / none / forged, or credentials), shortcut launch, delete session, advance clock (incl. to session expiry -1ms/0/+1ms), list/get calls, restart} are sampled from the seed; for EACH history the check runs (i) the fault-free history against the strict reference model, (ii) a server re-created over the store after EVERY position, compared step by step with the original's outcome classes, (iii) EVERY store call index x {not-found, I/O error before apply, I/O error after apply, process crash at that call, process crash right after the call applied} as a single injected fault (a crash abandons the request without a reply and a new server starts over what the store holds) against the relaxed model; evaluations = sampled histories (extra.restart_positions and extra.fault_placements count the enumerated forks); non-trivial = the reference run contains an authentication decision (assertion, session, login form or error); distinct = distinct abstract reference log; after a truthful store failure (I/O error before apply) a twin server restarted at that moment serves the rest of the history and must answer like the original; PUT /users may omit attributes; targeted tails: replace-record-then-login-then-SSO, and login / advance to session expiry -1ms..+999ms / use cookie; thorough tier: 2-4 random multi-fault forks per history; logins may present a planted or stale cookie (a session whose ID equals a value the client chose is a violation); passwords of exactly 72 and of 100 bytes with near-miss logins (password+tail, first 72 bytes+other tail); PUT /users bodies may name another user; targeted scenarios for each; a session in use at a drawn distance (1 s ... 59 min) before its expiry whose cookie returns at a drawn distance (1 ms ... 50 min) after it; the credentials of a live session's user replaced (API, operator, PUT keeping the hash) or the user removed, then the cookie used (the API variant as a history of its own: it hashes at full cost); replies are searched for every hash the store held before or holds after the request, raw, URL-escaped, base64 (4 alphabets) and as lists of byte values (decimal, hex, octal, escapes x 7 separators)",
+		Rule: "histories of 6-17 operations over {put/delete user (with/without/empty password), put/delete service (3 SP identities, 3 names, invalid body), put/delete shortcut, login (right/wrong/empty/other user's password), SSO (redirect/post, cookie of slot k / none / forged, or credentials), shortcut launch, delete session, advance clock (incl. to session expiry -1ms/0/+1ms), list/get calls, restart} are sampled from the seed; for EACH history the check runs (i) the fault-free history against the strict reference model, (ii) a server re-created over the store after EVERY position, compared step by step with the original's outcome classes, (iii) EVERY store call index x {not-found, I/O error before apply, I/O error after apply, process crash at that call, process crash right after the call applied} as a single injected fault (a crash abandons the request without a reply and a new server starts over what the store holds) against the relaxed model; evaluations = sampled histories (extra.restart_positions and extra.fault_placements count the enumerated forks); non-trivial = the reference run contains an authentication decision (assertion, session, login form or error); distinct = distinct abstract reference log; after a truthful store failure (I/O error before apply) a twin server restarted at that moment serves the rest of the history and must answer like the original; PUT /users may omit attributes; targeted tails: replace-record-then-login-then-SSO, and login / advance to session expiry -1ms..+999ms / use cookie; thorough tier: 2-4 random multi-fault forks per history; logins may present a planted or stale cookie (a session whose ID equals a value the client chose is a violation); passwords of exactly 72 and of 100 bytes with near-miss logins (password+tail, first 72 bytes+other tail); PUT /users bodies may name another user; targeted scenarios for each; a session in use at a drawn distance (1 s ... 59 min) before its expiry whose cookie returns at a drawn distance (1 ms ... 50 min) after it; the credentials of a live session's user replaced (API, operator, PUT keeping the hash) or the user removed, then the cookie used (the API variant as a history of its own: it hashes at full cost); replies are searched for every hash the store held before or holds after the request, raw, URL-escaped, base64 (4 alphabets) and as lists of byte values (decimal, hex, octal, escapes x 7 separators); in 40% of the histories the three service names are replaced throughout by names that orderings rank differently (s10/s5/s9, mixed case, leading zeros, punctuation), and 40% of the uploads of the other metadata variant are documents that carry the entity ID without a service-provider role (may be refused; if stored, it registers no service provider, and next to a name with the SP document the served one is the server's choice - the same after every restart)",
 		Gen:  genC19, Exec: execC19, Simplify: simplifyC19,
 		RunsQuick: 160, RunsThorough: 16000,
 		Assumptions: []string{"emitted assertions are decoded by the real SP the form addresses (request correlation disabled in that monitor)", "session expiry is read from the session object the server stores, not from a constant", "after an injected store error requests are checked for safety only (no unauthorised assertion/session, no hash disclosure, one well-formed reply)", "bcrypt, RSA padding randomness are not behind a seam and never enter the abstract log"},
